@@ -11,11 +11,11 @@ struct tblk { ABTI_ktable_mem_header h; ABTI_ktable kt; char pad0[8]; ABTI_ktele
 static struct tblk TB0; static ABTI_thread_mig_data MIG;
 static ABTD_spinlock LOCK;
 static struct { ABTI_ythread *a; void *b; } ARG;
-static int negative_seen;
+static int negative_seen, terminated_seen;
 static void env_step(void) {}
 static void vr_after_switch(int k) {}
 static void vr_stuck(const char *w) {}
-void vr_check(void) { if (PL0.num_blocked.val < 0 || PL1.num_blocked.val < 0 || PL2.num_blocked.val < 0) negative_seen = 1; }
+void vr_check(void) { if (ULT0.thread.state.val == ABT_THREAD_STATE_TERMINATED) terminated_seen = 1; if (PL0.num_blocked.val < 0 || PL1.num_blocked.val < 0 || PL2.num_blocked.val < 0) negative_seen = 1; }
 int main(void)
 {
     world_init();
@@ -28,6 +28,12 @@ int main(void)
         TB0.kt.p_elems[0].val = &TB0.e0; TB0.e0.key_id = ABTI_KEY_ID_MIGRATION; TB0.e0.value = &MIG; TB0.e0.f_destructor = NULL; TB0.e0.p_next.val = NULL;
         ULT0.thread.p_keytable.val = &TB0.kt; MIG.p_migration_pool.val = &PL2; MIG.f_migration_cb = NULL; ULT0.thread.request.val = ABTI_THREAD_REQ_MIGRATE;
     }
+    /* a cancel request may be pending too: suspend-type switches are not cancellation points for the SUSPENDING unit (it would be
+     * terminated and then marked BLOCKED) -- the request stays pending until the unit is scheduled again */
+    int cancel = nondet_bool();
+#if KIND <= 2 || KIND == 6 || KIND == 7
+    if (cancel) ULT0.thread.request.val |= ABTI_THREAD_REQ_CANCEL;
+#endif
     vr_in_init = 0;
 #if KIND == 0
     ABTI_ythread_callback_suspend(&ULT0);
@@ -35,7 +41,13 @@ int main(void)
     ARG.a = &ULT0; ARG.b = &LOCK; ABTI_ythread_callback_suspend_unlock(&ARG);
 #elif KIND == 2
     ARG.a = &ULT0; ARG.b = &ULT1; ABTI_ythread_callback_suspend_join(&ARG);
-#elif KIND >= 3
+#elif KIND == 6
+    /* resume_suspend_to: the caller blocks, the (blocked) target in the same or another pool is resumed in its place */
+    { int same = nondet_bool(); ULT1.thread.p_pool = same ? &PL0 : &PL1; ULT1.thread.state.val = ABT_THREAD_STATE_RUNNING; (same ? &PL0 : &PL1)->num_blocked.val = 1; }
+    ARG.a = &ULT0; ARG.b = &ULT1; ABTI_ythread_callback_resume_suspend_to(&ARG);
+#elif KIND == 7
+    { static ABTI_sched MS; MS.request.val = 0; ARG.a = &ULT0; ARG.b = &MS; ABTI_ythread_callback_suspend_replace_sched(&ARG); VR_ASSERT(MS.request.val & ABTI_SCHED_REQ_REPLACE, "the main scheduler is asked to replace itself"); }
+#elif KIND >= 3 && KIND <= 5
     /* yield-type callbacks: the unit goes straight back to a pool -- the one it is associated with AFTER a pending
      * migration has been served (sp_push asserts that), and the pre-incremented counter of ABT_thread_yield_to is undone */
     ULT0.thread.state.val = ABT_THREAD_STATE_READY;
@@ -51,7 +63,9 @@ int main(void)
     VR_ASSERT(PL0.num_blocked.val == 0 && PL1.num_blocked.val == 0 && PL2.num_blocked.val == 0 && !negative_seen, "blocked counters balanced after the yield");
     if (mig) VR_WITNESS("yielded with a migration pending"); else VR_WITNESS("yielded");
 #endif
-#if KIND <= 2
+#if KIND <= 2 || KIND == 6 || KIND == 7
+    VR_ASSERT(!terminated_seen && (!cancel || (ULT0.thread.request.val & ABTI_THREAD_REQ_CANCEL)), "a unit that suspends with a cancel request pending is not terminated at that point; the request stays pending");
+    if (cancel) VR_WITNESS("suspended with a cancel request pending");
     VR_ASSERT(ULT0.thread.state.val == ABT_THREAD_STATE_BLOCKED, "the unit is BLOCKED");
     ABTI_pool *assoc = ULT0.thread.p_pool;
     VR_ASSERT(!mig || assoc == &PL2, "a pending migration is served at the blocking point: the unit is now associated with the requested pool");
